@@ -12,6 +12,7 @@ import Driver.ResP
 import Driver.WidthP
 import Driver.LenP
 import Driver.MixP
+import Driver.StoreP
 import Driver.RefP
 import Driver.InlP
 import Driver.CcP
@@ -46,6 +47,7 @@ def handle (line : String) : String :=
   | "res" :: args => Driver.ResP.handle args
   | "len" :: args => Driver.LenP.handle args
   | "mixed" :: args => Driver.MixP.handle args
+  | "store" :: args => Driver.StoreP.handle args
   | "textflow" :: args => Driver.MixP.textHandle args
   | "textvoid" :: args => Driver.MixP.voidHandle args
   | "width" :: args => Driver.WidthP.handle args
